@@ -17,6 +17,7 @@ import (
 //  6. any variable created by {let} is used somewhere
 //  7. {let} variable names are valid.  ('ij' is not allowed.)
 //  8. Only one parameter declaration mechanism (soydoc vs headers) is used.
+//  9. index, isFirst and isLast are applied to the variable of an enclosing loop.
 func CheckDataRefs(reg template.Registry) (err error) {
 	var currentTemplate string
 	defer func() {
@@ -93,6 +94,8 @@ func (tc *templateChecker) checkTemplate(node ast.Node) {
 		return
 	case *ast.DataRefNode:
 		tc.visitKey(node.Key)
+	case *ast.FunctionNode:
+		tc.checkLoopFunc(node)
 	case *ast.HeaderParamNode:
 		panic(fmt.Errorf("unexpected {@param ...} tag found"))
 	}
@@ -106,6 +109,30 @@ func (tc *templateChecker) checkLet(varName string) {
 	if varName == "ij" {
 		panic("Invalid variable name in 'let' command text: '$ij'")
 	}
+}
+
+// checkLoopFunc ensures that index, isFirst and isLast are applied to the
+// variable of an enclosing loop: they read that loop's counters, which exist
+// for no other variable.
+func (tc *templateChecker) checkLoopFunc(node *ast.FunctionNode) {
+	switch node.Name {
+	case "index", "isFirst", "isLast":
+	default:
+		return
+	}
+	if len(node.Args) == 0 {
+		return
+	}
+	var ref, ok = node.Args[0].(*ast.DataRefNode)
+	if !ok {
+		return
+	}
+	for _, v := range tc.vars {
+		if !v.let && v.name == ref.Key {
+			return
+		}
+	}
+	panic(fmt.Errorf("function %s: $%s is not the variable of an enclosing loop", node.Name, ref.Key))
 }
 
 func (tc *templateChecker) checkCall(node *ast.CallNode) {
